@@ -24,11 +24,14 @@ pub struct DirectSpec {
     pub never_discovers: bool,
     pub discovery_latency: Duration,
     pub adapters: Option<AdapterScript>,
+    /// listen on `[::]` (IPv4 clients then arrive as IPv4-mapped IPv6 peers); clients still connect
+    /// to 127.0.0.1
+    pub dual_stack: bool,
 }
 
 impl Default for DirectSpec {
     fn default() -> Self {
-        DirectSpec { timeout: Duration::from_secs(10), limiter: None, proxy: None, secret: None, never_discovers: false, discovery_latency: Duration::ZERO, adapters: None }
+        DirectSpec { timeout: Duration::from_secs(10), limiter: None, proxy: None, secret: None, never_discovers: false, discovery_latency: Duration::ZERO, adapters: None, dual_stack: false }
     }
 }
 
@@ -100,7 +103,8 @@ pub async fn start_direct(spec: DirectSpec) -> Direct {
                     .with_rate_limiter(spec.limiter.map(|(d, l)| RateLimiter::<IpAddr>::new(d, l)))
                     .with_proxy_protocol(spec.proxy.map(|(v1, v2)| ParseConfig { include_tlvs: false, allow_v1: v1, allow_v2: v2 }));
                 let _ = acc_tx.send(listener.verif_accepted_counter());
-                let res = listener.listen(addr, stop).await;
+                let bind: SocketAddr = if spec.dual_stack { format!("[::]:{port}").parse().expect("addr") } else { addr };
+                let res = listener.listen(bind, stop).await;
                 *returned.lock().unwrap_or_else(|e| e.into_inner()) = Some(Instant::now());
                 if let Err(e) = res {
                     eprintln!("listener ended with error: {e}");
